@@ -35,8 +35,8 @@ def rlp(x):
 def nibbles_of(key):
     out = []
     for b in key:
-        out.append(b >> 4)
-        out.append(b & 15)
+        out.append(b // 16)      # (// and % rather than >> and &: these stay symbolic under CrossHair)
+        out.append(b % 16)
     return tuple(out)
 
 
